@@ -36,8 +36,9 @@ LINEAR_ATTRS = {'T', 'real', 'data', 'flat'}
 class Linear(Domain):
     name = 'linear'
 
-    def __init__(self, lin_params):
+    def __init__(self, lin_params, affine=False):
         self.lin_params = set(lin_params)
+        self.affine = affine        # affine mode: a gradient-independent addend keeps the value in the (affine) class LIN
 
     def top(self):
         return NONLIN
@@ -72,6 +73,8 @@ class Linear(Domain):
             return b
         if b == ZERO:
             return a
+        if self.affine:
+            return LIN
         return NONLIN           # CONST vs LIN: not linear on every path
 
     def literal(self, I, node):
@@ -127,6 +130,8 @@ class Linear(Domain):
                 return l
             if l == r and l in (LIN, CONST):
                 return l
+            if self.affine and {l, r} == {LIN, CONST}:
+                return LIN
             I.event('nonlin', node, why='sum of %s and %s (a term independent of the gradient is added to a gradient term)' % (l, r))
             return NONLIN
         if isinstance(op, (ast.Mult, ast.MatMult)):
